@@ -193,7 +193,7 @@ func checkC03(r *core.Run) {
 		}
 	}
 	r.Count("printer_kind_fields", kp)
-	c03DecodeWidth(r, prog)
+	decodeWidth(r, prog, "C03")
 	_ = sort.Strings
 }
 
@@ -210,7 +210,7 @@ func wordLengthChecked(prog *core.Program) bool {
 // error: a narrower bitSize makes ParseUint clamp (and report an error that a `_` discards), so a
 // wide field decodes to another value than was encoded. Expected population on this tree: none
 // (get_id converts by hand); the rule exists for the day the hand-written loop is replaced.
-func c03DecodeWidth(r *core.Run, prog *core.Program) {
+func decodeWidth(r *core.Run, prog *core.Program, prop string) {
 	pk := prog.Pkg("pkg/procbuilder")
 	if pk == nil {
 		return
@@ -248,18 +248,18 @@ func c03DecodeWidth(r *core.Run, prog *core.Program) {
 			}
 			k++
 			n++
-			inst := fmt.Sprintf("C03/DECODEWIDTH:%s:parse%d", core.FuncKey(pk, fd), k)
+			inst := fmt.Sprintf("%s/DECODEWIDTH:%s:parse%d", prop, core.FuncKey(pk, fd), k)
 			size := "?"
 			if tv, ok := info.Types[call.Args[2]]; ok && tv.Value != nil {
 				size = tv.Value.String()
 			}
 			switch {
 			case size != "0" && size != "64":
-				r.Violation("C03/DECODEWIDTH", inst, prog.Pos(call.Pos()), fmt.Sprintf("%s decodes a bit string with strconv.%s(…, 2, %s): a field wider than %s bits (fields are as wide as the register size, up to 64) is clamped to the maximum instead of decoded — disassembling or simulating an assembled word does not give back the operand that was encoded", core.FuncKey(pk, fd), c.Name(), size, size))
+				r.Violation(prop+"/DECODEWIDTH", inst, prog.Pos(call.Pos()), fmt.Sprintf("%s decodes a bit string with strconv.%s(…, 2, %s): a field wider than %s bits (fields are as wide as the register size, up to 64) is clamped to the maximum instead of decoded — the disassembler and the simulator see another operand than the one that was encoded (and than the one the Verilog template slices out of the word)", core.FuncKey(pk, fd), c.Name(), size, size))
 			case dropped:
-				r.Violation("C03/DECODEWIDTH", inst, prog.Pos(call.Pos()), fmt.Sprintf("%s decodes a bit string with strconv.%s and discards the error: a malformed or over-long field silently decodes to a clamped value", core.FuncKey(pk, fd), c.Name()))
+				r.Violation(prop+"/DECODEWIDTH", inst, prog.Pos(call.Pos()), fmt.Sprintf("%s decodes a bit string with strconv.%s and discards the error: a field the parse cannot represent (over-long, or with the top bit set under a signed parse) silently decodes to a clamped value, so the simulator and the disassembler use another operand than the generated hardware, which takes the bits as they are", core.FuncKey(pk, fd), c.Name()))
 			default:
-				r.OK("C03/DECODEWIDTH", inst, prog.Pos(call.Pos()), "base-2 parse at 64 bits with the error looked at")
+				r.OK(prop+"/DECODEWIDTH", inst, prog.Pos(call.Pos()), "base-2 parse at 64 bits with the error looked at")
 			}
 			return true
 		})
